@@ -438,3 +438,19 @@ Definition ingress_auth (expected : stype) (annotation : option string) (ns : st
 
 Definition ingress_jwt := ingress_auth TyJWK.
 Definition ingress_basic := ingress_auth TyHtpasswd.
+
+(* ---------------------------------------------------------------- Secrets over time *)
+
+(* What the generation sees is the CURRENT set of Secrets ([d_secrets]).  The history that led to it
+   (informer events handled by syncSecret: AddOrUpdateSecret / DeleteSecret on the store) matters
+   only through that set: a Secret that existed -- valid or not, referenced or not -- and was
+   deleted before the resource is generated does not exist. *)
+Inductive sevent := SecUpsert (key : string) (s : secret) | SecDelete (key : string).
+
+Definition sec_step (l : list (string * secret)) (e : sevent) : list (string * secret) :=
+  match e with
+  | SecUpsert k s => (k, s) :: l
+  | SecDelete k => filter (fun x => negb (String.eqb k (fst x))) l
+  end.
+
+Definition secrets_of_history (h : list sevent) : list (string * secret) := fold_left sec_step h [].
